@@ -134,7 +134,8 @@ type nodeCase struct {
 	Sig      string `json:"sig"` // signalOnStop
 	Rep      bool   `json:"rep"` // repeatPolicy.repeat
 	// Pre == 3: the precondition is a command that blocks on a fifo until the harness answers it
-	// (op "pre i"); PreVal 1 = met, 2 = unmet
+	// (op "pre i"); PreVal 1 = met, 2 = unmet, 3 = met at the first evaluation and unmet at every later one
+	// (what the precondition reads changes while the run goes on: a retried step is re-checked when it is handed back)
 	PreVal int `json:"prev"`
 }
 
@@ -154,6 +155,9 @@ type schedCase struct {
 	// the listener on the done channel (the agent's: it writes the status to the history store, reports
 	// to the socket) takes that long before it accepts each report: every worker's hand-over blocks meanwhile
 	SlowDone int `json:"slowDone,omitempty"`
+	// repeat interval of the repeating steps (ms); with it the stop can be placed INSIDE the sleep between two
+	// iterations (op "relstop i": the iteration of step i ends, then the stop arrives while its worker sleeps)
+	RepInt int `json:"repInt,omitempty"`
 }
 
 type snap struct {
@@ -201,7 +205,7 @@ func stepOf(cid string, i int, nc nodeCase) dag.Step {
 		s.RetryPolicy = &dag.RetryPolicy{Limit: nc.Limit}
 	}
 	if nc.Rep {
-		s.RepeatPolicy = dag.RepeatPolicy{Repeat: true}
+		s.RepeatPolicy = dag.RepeatPolicy{Repeat: true, Interval: time.Duration(curCase.RepInt) * time.Millisecond}
 	}
 	if nc.Pre == 3 {
 		p := fifoPath(i)
@@ -354,6 +358,11 @@ func quiesce(sc *scheduler.Scheduler, g *scheduler.ExecutionGraph, finished chan
 			lastN, last, stableSince = n, s, time.Now()
 		} else {
 			need := quiet
+			if curCase.RepInt > 0 {
+				// a repeating step's worker may be asleep between two iterations (labelled failed / running,
+				// nothing in flight): wait it out
+				need += time.Duration(curCase.RepInt) * time.Millisecond * 3 / 2
+			}
 			if slowDone > 0 && len(s.Flight) == 0 && len(s.Pending) == 0 {
 				// nothing for the harness to act on: the run is about to end or to start a handler, but only
 				// after every worker's report was accepted by the (slow) listener
@@ -445,6 +454,7 @@ func runCase(c schedCase, quiet time.Duration) (res result) {
 	}()
 
 	releases := 0
+	preAnswers := map[int]int{}
 	stopped := false
 	killed := false
 	opIdx := 0
@@ -472,6 +482,12 @@ func runCase(c schedCase, quiet time.Duration) (res result) {
 			res.Finished = true
 			break
 		}
+		if c.Ops != nil && opIdx >= len(c.Ops) && idle < 160 {
+			// replayed op list used up: the run has to end by itself; give the scheduler's goroutines time before
+			// calling it a hang (a snapshot can be stable for `quiet` while Schedule is about to return)
+			idle++
+			continue
+		}
 		if c.Ops == nil && len(s.Flight)+len(s.Pending) == 0 &&
 			!(!stopped && c.StopAfter >= 0 && releases >= c.StopAfter) && idle < 80 {
 			// nothing to do yet (e.g. between two handlers, or the loop goroutine has not run): this is
@@ -492,11 +508,25 @@ func runCase(c schedCase, quiet time.Duration) (res result) {
 			opIdx++
 		} else if !stopped && c.StopAfter >= 0 && releases >= c.StopAfter {
 			op = "stop"
+			if c.RepInt > 0 {
+				for _, i := range s.Flight {
+					if i < 1000 && c.Nodes[i].Rep && (c.Nodes[i].Fails == 0 || c.Nodes[i].ContFail) {
+						op = fmt.Sprintf("relstop %d", i)
+					}
+				}
+			}
 		} else if len(s.Flight)+len(s.Pending) > 0 {
 			k := rng.Intn(len(s.Flight) + len(s.Pending))
 			if k >= len(s.Flight) {
 				i := s.Pending[k-len(s.Flight)]
-				op = fmt.Sprintf("pre %d %d", i, c.Nodes[i].PreVal)
+				pv := c.Nodes[i].PreVal
+				if pv == 3 {
+					pv = 1
+					if preAnswers[i] > 0 {
+						pv = 2
+					}
+				}
+				op = fmt.Sprintf("pre %d %d", i, pv)
 			} else {
 				i := s.Flight[k]
 				W.mu.Lock()
@@ -521,6 +551,22 @@ func runCase(c schedCase, quiet time.Duration) (res result) {
 			break
 		}
 		res.Ops = append(res.Ops, op)
+		if len(op) > 8 && op[:8] == "relstop " {
+			var i int
+			fmt.Sscanf(op, "relstop %d", &i)
+			W.mu.Lock()
+			e := W.inflight[i]
+			W.mu.Unlock()
+			if e == nil {
+				res.Monitor = append(res.Monitor, fmt.Sprintf("replay-op-not-applicable:%s", op))
+				res.Hang = true
+				break
+			}
+			e.release <- true
+			releases++
+			time.Sleep(time.Duration(c.RepInt) * time.Millisecond / 4) // the worker is asleep between two iterations now
+			op = "stop"
+		}
 		if op == "stop" {
 			stopped = true
 			W.mu.Lock()
@@ -538,7 +584,23 @@ func runCase(c schedCase, quiet time.Duration) (res result) {
 		} else if len(op) > 4 && op[:4] == "pre " {
 			var i, v int
 			fmt.Sscanf(op, "pre %d %d", &i, &v)
-			f, err := os.OpenFile(fifoPath(i), os.O_WRONLY, 0)
+			preAnswers[i]++
+			// (non-blocking: if the code under test does not evaluate the precondition - no reader on the fifo -
+			//  the harness must not wait for ever)
+			var f *os.File
+			var err error
+			for k := 0; k < 400; k++ {
+				f, err = os.OpenFile(fifoPath(i), os.O_WRONLY|syscall.O_NONBLOCK, 0)
+				if err == nil {
+					break
+				}
+				time.Sleep(5 * time.Millisecond)
+			}
+			if err != nil {
+				res.Monitor = append(res.Monitor, fmt.Sprintf("C02:precondition-not-evaluated-when-the-step-is-due:node=%d", i))
+				res.Hang = true
+				break
+			}
 			if err == nil {
 				if v == 1 {
 					f.WriteString("1\n")
